@@ -15,6 +15,7 @@ import RegexVerif.Lemmas.VMCapacity
 import RegexVerif.Lemmas.Compose
 import RegexVerif.Lemmas.StackCapacity
 import RegexVerif.Lemmas.StackTypingEmit
+import RegexVerif.Lemmas.StackHeightEmit
 
 namespace RegexVerif.Props.C13
 open RegexVerif RegexVerif.Capacity RegexVerif.Lemmas.Capacity RegexVerif.Generated
@@ -569,12 +570,11 @@ theorem vm_stack_never_grows (p : Code.Prog) (hwf : p.wf = true) (bs : List Nat)
     `H + 2` slots: in every reachable state of the attempt of the emitted program the grouping stack holds at most
     `H + 2` slots, within the capacity, before and after each iteration; and from a slice of `H + 2 + 4·tc` slots the
     length of `runstack` never changes (the doubling in `ensureStorage` is dead code).
-    PARTIAL — the full statement would give `H` in closed form: `H + 2 ≤ 4·TrackCount` for `H` = the largest height of
-    `tyAt` (every slot of a type is pushed by an enclosing `Setmark`/`Nullmark`/`Setcount`/`Nullcount`/`Setjump`, at
-    most 2 slots per backtracking instruction of the enclosing frames), hence `capA = stackAlloc0 TrackCount` qualifies
-    and `emitted_stack_no_overflow` would need no `capA` hypothesis.  That induction over `tyAt` is not done; leg W
-    evaluates `maxHeight + 2 ≤ 4·TrackCount` on every compiled program and compares `len(runstack)` after the attempts
-    with `stackAlloc0 TrackCount` (key `W:stackcap`). -/
+    PARTIAL in that `H` is not given in closed form here; kept because it is more general in `capA` and `tc` (any current
+    length of a pooled runner's slice, any `runtrackcount`).  The closed form `H + 2 ≤ 2·TrackCount` is
+    `emit_height_closed`, and the full statement from the real first allocation is `emitted_stack_no_overflow` below.
+    Leg W still evaluates `maxHeight + 2 ≤ 4·TrackCount` on every compiled program and compares `len(runstack)` after the
+    attempts with `stackAlloc0 TrackCount` (key `W:stackcap`) as a cross-check. -/
 theorem emitted_stack_no_overflow_partial (ti : TreeInfo) (root : GoNode) (h : treeWf ti root = true) :
     ∃ H : Nat, ∀ (env : Env) (pos : Int), 0 ≤ pos → pos ≤ env.len → ∀ (s0 : VMState),
       VM.init (emit ti root) pos = .ok s0 → ∀ (tc capA : Nat), H + 2 ≤ capA → ∀ (s : VMState) (cap : Nat),
@@ -613,6 +613,127 @@ example : demo.wf = true ∧ StackTyping.typed demo = true ∧ StackTyping.maxHe
     StackTyping.maxHeight (emit info2 tree2) = 4 ∧ stackAlloc0 demo.trackcount = 40 := by decide
 example : ∃ s0, VM.init (emit info2 tree2) 0 = .ok s0 ∧
     VMReachS 9 (emit info2 tree2) demoEnv s0 (stackEnsure 9 72 0) s0 72 := ⟨_, rfl, .start⟩
+
+/-- **Closed-form height of the grouping-stack typing of every emitted program.**  The main program of every
+    well-formed tree has a typing (the explicit `tyAt` of Props/C10) all of whose types have height at most `H` with
+    `H + 2 ≤ 2·TrackCount`: every slot of a type is pushed by a frame of an enclosing node, and every frame has at least
+    half as many instructions counted by `opcodeBacktracks` as it has slots (Capture 1 slot / 2 counted; Loop 1 / 2 —
+    `Nullmark` is not counted, its `Goto` is —; Loop with counter 2 / ≥ 2; Atomic 2 / 2; NegLook 2 / 4; PosLook 3 / 4;
+    ExprCond 3 / ≥ 5; the leading `Lazybranch` of the program accounts for the `+ 2`).  Hence the first allocation of
+    `initMatch`, `max 32 (8·TrackCount)` slots, has room for the deepest grouping stack (`H + 2`, the two extra slots a
+    Back / Back2 case holds before it restores) plus the `4·TrackCount` free slots every `ensureStorage` asks for.  The same
+    for the bool-only program, which keeps the first program's `TrackCount`. -/
+theorem emit_height_closed (ti : TreeInfo) (root : GoNode) (h : treeWf ti root = true) :
+    (∃ bs a H, (emit ti root).boundaries = some bs ∧ TypingW (emit ti root) bs a ∧ HBound a H ∧
+      H + 2 ≤ 2 * (emit ti root).trackcount ∧
+      H + 2 + (emit ti root).trackcount * 4 ≤ stackAlloc0 (emit ti root).trackcount) ∧
+    ∀ qp, emitQuick ti root = some qp →
+      ∃ bs a H, qp.boundaries = some bs ∧ TypingW qp bs a ∧ HBound a H ∧ H + 2 ≤ 2 * qp.trackcount ∧
+        H + 2 + qp.trackcount * 4 ≤ stackAlloc0 qp.trackcount := by
+  refine ⟨?_, fun qp hq => ?_⟩
+  · obtain ⟨bs, a, H, h1, h2, h3, h4⟩ := Lemmas.StackHeightEmit.emit_height_le ti root h
+    exact ⟨bs, a, H, h1, h2, h3, h4, Lemmas.StackHeightEmit.stackAlloc0_room h4⟩
+  · obtain ⟨bs, a, H, h1, h2, h3, h4⟩ := Lemmas.StackHeightEmit.emitQuick_height_le ti root h qp hq
+    exact ⟨bs, a, H, h1, h2, h3, h4, Lemmas.StackHeightEmit.stackAlloc0_room h4⟩
+
+/-- **From the real first allocation the grouping stack of a typed program neither overflows nor grows**, provided the
+    height bound fits: any well-formed program with a typing of height at most `H`, `H + 2 ≤ 2·TrackCount`, run with
+    `runtrackcount = TrackCount` from the slice of `stackAlloc0 TrackCount` slots `initMatch` allocates.  In every
+    reachable state the length of `runstack` is the initial one, at most `2·TrackCount` slots are in use and `4·TrackCount`
+    are free; after the next iteration the slots in use fit and a storage check would not double.
+    (`emitted_stack_no_overflow` discharges the hypotheses for every emitted program.) -/
+theorem vm_stack_real_alloc (p : Code.Prog) (hwf : p.wf = true) (bs : List Nat) (hb : p.boundaries = some bs)
+    (a : StackTyping.Assign) (hty : TypingW p bs a) (H : Nat) (hH : HBound a H) (hc : H + 2 ≤ 2 * p.trackcount)
+    (env : Env) (pos : Int) (h0 : 0 ≤ pos) (hn : pos ≤ env.len) (s0 : VMState) (hinit : VM.init p pos = .ok s0)
+    (s : VMState) (cap : Nat)
+    (hr : VMReachS p.trackcount p env s0 (stackEnsure p.trackcount (stackAlloc0 p.trackcount) 0) s cap) :
+    cap = stackAlloc0 p.trackcount ∧ s.stack.length ≤ 2 * p.trackcount ∧
+      s.stack.length + p.trackcount * 4 ≤ cap ∧
+      ∀ s' chk, VM.step p env s = .next s' chk →
+        s'.stack.length ≤ cap ∧ stackEnsure p.trackcount cap s'.stack.length = cap := by
+  have hroom := Lemmas.StackHeightEmit.stackAlloc0_room hc
+  have hcap := vm_stack_never_grows p hwf bs hb a hty H hH env pos h0 hn s0 hinit p.trackcount _ hroom s cap hr
+  have hall := vm_stack_no_overflow p hwf bs hb a hty H hH env pos h0 hn s0 hinit p.trackcount _ (by omega) s cap hr
+  subst hcap
+  refine ⟨rfl, by omega, by omega, fun s' chk hstep => ?_⟩
+  have hnext := vm_stack_no_overflow p hwf bs hb a hty H hH env pos h0 hn s0 hinit p.trackcount _ (by omega) s'
+    _ (.next (chk := chk) hr hstep)
+  exact ⟨hall.2.2.2 s' chk hstep, stackEnsure_idle (by omega)⟩
+
+example : demo.wf = true ∧ StackTyping.typed demo = true ∧ StackTyping.maxHeight demo + 2 ≤ 2 * demo.trackcount ∧
+    stackEnsure demo.trackcount (stackAlloc0 demo.trackcount) 0 = 40 ∧ stackEnsure 5 40 (2 + 2) = 40 := by decide
+
+/-- **No overflow and no growth of the grouping stack for any pattern.**  For every well-formed tree, every text, start
+    position in the text, `\G` origin and oracles: start the attempt of the emitted program as `executeDefault` does, from
+    the slice `initMatch` really allocates (`stackAlloc0 TrackCount = max 32 (8·TrackCount)` slots, `runtrackcount =
+    TrackCount`), and run any number of iterations, every storage check applying the modelled `if` of `ensureStorage` to
+    the length.  In every reachable state: the length of `runstack` is still the initial one (the doubling is dead code
+    for every compiled program); the grouping stack holds at most `2·TrackCount` slots — a bound independent of the
+    text —, and `4·TrackCount` slots are free; after the next iteration, whatever its case, the slots in use fit
+    (`Runstackpos ≥ 0` at every store) and a check at that point would not double. -/
+theorem emitted_stack_no_overflow (ti : TreeInfo) (root : GoNode) (h : treeWf ti root = true)
+    (env : Env) (pos : Int) (h0 : 0 ≤ pos) (hn : pos ≤ env.len) (s0 : VMState)
+    (hinit : VM.init (emit ti root) pos = .ok s0) (s : VMState) (cap : Nat)
+    (hr : VMReachS (emit ti root).trackcount (emit ti root) env s0
+      (stackEnsure (emit ti root).trackcount (stackAlloc0 (emit ti root).trackcount) 0) s cap) :
+    cap = stackAlloc0 (emit ti root).trackcount ∧ s.stack.length ≤ 2 * (emit ti root).trackcount ∧
+      s.stack.length + (emit ti root).trackcount * 4 ≤ cap ∧
+      ∀ s' chk, VM.step (emit ti root) env s = .next s' chk →
+        s'.stack.length ≤ cap ∧ stackEnsure (emit ti root).trackcount cap s'.stack.length = cap := by
+  obtain ⟨bs, a, H, hb, hty, hH, hc⟩ := Lemmas.StackHeightEmit.emit_height_le ti root h
+  exact vm_stack_real_alloc _ (emit_vm_wf ti root h) bs hb a hty H hH hc env pos h0 hn s0 hinit s cap hr
+
+/-- the same for the bool-only program (`runtrackcount` is the first program's `TrackCount`, which the bool-only `Code`
+    keeps) -/
+theorem emittedQuick_stack_no_overflow (ti : TreeInfo) (root : GoNode) (h : treeWf ti root = true)
+    (qp : Code.Prog) (hq : emitQuick ti root = some qp)
+    (env : Env) (pos : Int) (h0 : 0 ≤ pos) (hn : pos ≤ env.len) (s0 : VMState)
+    (hinit : VM.init qp pos = .ok s0) (s : VMState) (cap : Nat)
+    (hr : VMReachS qp.trackcount qp env s0 (stackEnsure qp.trackcount (stackAlloc0 qp.trackcount) 0) s cap) :
+    cap = stackAlloc0 qp.trackcount ∧ s.stack.length ≤ 2 * qp.trackcount ∧
+      s.stack.length + qp.trackcount * 4 ≤ cap ∧
+      ∀ s' chk, VM.step qp env s = .next s' chk →
+        s'.stack.length ≤ cap ∧ stackEnsure qp.trackcount cap s'.stack.length = cap := by
+  obtain ⟨bs, a, H, hb, hty, hH, hc⟩ := Lemmas.StackHeightEmit.emitQuick_height_le ti root h qp hq
+  exact vm_stack_real_alloc _ (emitQuick_vm_wf ti root h qp hq) bs hb a hty H hH hc env pos h0 hn s0 hinit s cap hr
+
+/-- non-vacuity: the trees of `(a)|b\1` (TrackCount 9, first allocation 72 slots, largest type 4 ≤ 2·9 − 2),
+    `(?:ab?)*c` (TrackCount 5, 40 slots, largest type 2) and the bool-only program of `(x)y` (TrackCount 5 kept from the
+    first program, no grouping-stack slot left); and a state of the first one reached after five iterations from the
+    real allocation in which the grouping stack holds 4 slots — the largest height of its typing is attained -/
+example : treeWf info2 tree2 = true ∧ (emit info2 tree2).trackcount = 9 ∧ stackAlloc0 9 = 72 ∧
+    StackTyping.maxHeight (emit info2 tree2) = 4 ∧ treeWf info1 tree1 = true ∧ (emit info1 tree1).trackcount = 5 ∧
+    stackAlloc0 5 = 40 ∧ StackTyping.maxHeight (emit info1 tree1) = 2 ∧
+    (emitQuick info2 tree3).map (fun q => (q.trackcount, StackTyping.maxHeight q)) = some (5, 1) := by decide
+example : ∃ s0 s cap, VM.init (emit info2 tree2) 0 = .ok s0 ∧
+    VMReachS 9 (emit info2 tree2) demoEnv s0 (stackEnsure 9 (stackAlloc0 9) 0) s cap ∧ s.stack.length = 4 ∧
+    cap = 72 := by
+  have reach : ∀ (s0 : VMState) (n : Nat) (s : VMState) (cap : Nat) (r : VMState × Nat),
+      VMReachS 9 (emit info2 tree2) demoEnv s0 (stackEnsure 9 (stackAlloc0 9) 0) s cap →
+      Lemmas.StackHeightEmit.stackRunN 9 (emit info2 tree2) demoEnv n s cap = some r →
+      VMReachS 9 (emit info2 tree2) demoEnv s0 (stackEnsure 9 (stackAlloc0 9) 0) r.1 r.2 := by
+    intro s0 n
+    induction n with
+    | zero => intro s cap r hr h; simp only [Lemmas.StackHeightEmit.stackRunN, Option.some.injEq] at h; subst h; exact hr
+    | succ n ih =>
+      intro s cap r hr h
+      simp only [Lemmas.StackHeightEmit.stackRunN] at h
+      split at h
+      · next s' chk hs => exact ih _ _ r (.next hr hs) h
+      · cases h
+  have h : ∃ s0, VM.init (emit info2 tree2) 0 = .ok s0 ∧
+      (Lemmas.StackHeightEmit.stackRunN 9 (emit info2 tree2) demoEnv 5 s0 (stackEnsure 9 (stackAlloc0 9) 0)).map
+        (fun r => (r.1.stack.length, r.2)) = some (4, 72) := ⟨_, rfl, by decide⟩
+  obtain ⟨s0, h1, h2⟩ := h
+  cases hr : Lemmas.StackHeightEmit.stackRunN 9 (emit info2 tree2) demoEnv 5 s0 (stackEnsure 9 (stackAlloc0 9) 0) with
+  | none => rw [hr] at h2; cases h2
+  | some r =>
+    rw [hr] at h2
+    simp only [Option.map_some, Option.some.injEq, Prod.mk.injEq] at h2
+    exact ⟨s0, r.1, r.2, h1, reach s0 5 _ _ r .start hr, h2.1, h2.2⟩
+example : ∃ qp s0, emitQuick info2 tree3 = some qp ∧ VM.init qp 0 = .ok s0 ∧
+    VMReachS qp.trackcount qp demoEnv s0 (stackEnsure qp.trackcount (stackAlloc0 qp.trackcount) 0) s0 40 :=
+  ⟨_, _, rfl, rfl, .start⟩
 
 /-- states reachable from `s0`, with the length of `runcrawl`: the pushes of an iteration (`Capturemark` calls `crawl`
     once or twice; every other case that touches the crawl stack only pops) go through `crawl`'s check one by one -/
